@@ -51,7 +51,7 @@ Check(cfg, rq, d, e) ==
   LET t == e.t  b == e.b
       rs == RankSet(e)
       D(name, rank, have, need) == <<name, e.c, rank, b, have, need>>
-      C(name, rank, have, need) == IF have < need THEN {D(name, rank, have, need)} ELSE {}
+      C(name, rank, have, need) == IF need > 0 /\ have < need THEN {D(name, rank, have, need)} ELSE {}
       busy(rank) == C("tRFC", rank, t - d.tRef[rank], rq["tRFC"]) \cup C("tZQCS", rank, t - d.tZq[rank], rq["tZQCS"])
       common == UNION {busy(r) : r \in rs}
                 \cup (IF e.t = d.lastT /\ e.c # "STROBE" THEN {D("two commands on one phase", 0, 0, 0)} ELSE {})
